@@ -167,7 +167,7 @@ func genType(rt *rapid.T, depth int) reflect.Type {
 }
 
 func TestMatrix(t *testing.T) {
-	per := ev.Pick(40, 200)
+	per := ev.Pick(40, 800)
 	i := 0
 	for _, leaf := range uni.Leaves() {
 		for _, pos := range uni.Positions {
@@ -205,7 +205,7 @@ func TestMatrix(t *testing.T) {
 }
 
 func TestSequences(t *testing.T) {
-	ev.Check(t, "sequences", ev.N(40000, 800000), func(rt *rapid.T) {
+	ev.Check(t, "sequences", ev.N(40000, 6000000), func(rt *rapid.T) {
 		n := rapid.IntRange(1, 5).Draw(rt, "n")
 		var vals []reflect.Value
 		var useWrite []bool
@@ -230,7 +230,7 @@ func TestSequences(t *testing.T) {
 // marker and the pointer again. If the clutter's reference accounting is off by even one, the
 // back-references resolve to the wrong item under the independent reader.
 func TestRefClutter(t *testing.T) {
-	per := ev.Pick(25, 300)
+	per := ev.Pick(25, 1200)
 	for i, ct := range uni.ClutterTypes() {
 		if i%ev.S.NShards != ev.S.Shard {
 			continue
@@ -274,7 +274,7 @@ func nilSafe(v reflect.Value) interface{} {
 // connection-scoped encoder is used. Every message is read on its own, with fresh class and reference tables: it must
 // be well-formed by itself and denote its value.
 func TestEncoderReuse(t *testing.T) {
-	ev.Check(t, "encoder-reuse", ev.N(3000, 200000), func(rt *rapid.T) {
+	ev.Check(t, "encoder-reuse", ev.N(3000, 1000000), func(rt *rapid.T) {
 		n := rapid.IntRange(2, 4).Draw(rt, "messages")
 		o := uni.Opts{NoBadYears: true, NoLaxUTF8: true, NoBigPrec: true, MaxLen: 3}
 		structs := uni.Structs
